@@ -12,6 +12,8 @@ from __future__ import annotations
 import copy
 from typing import Any, Dict, List, Optional, Tuple
 
+import sys
+
 import z3
 
 from ..pysym import engine as EN
@@ -105,6 +107,30 @@ class GSlice:
         return self.hi - self.lo
 
 
+class GSymBytes:
+    """a []byte of symbolic length with symbolic contents: arr = z3 Array(BV64 -> BV8), n = BV64 length (contract proofs of the
+    single-byte copiers: every buffer length, every cursor)"""
+
+    def __init__(self, arr, n):
+        self.arr, self.n = arr, n
+
+
+class GStub:
+    """abstract object of a contract: methods is  name -> callable(interp, args) -> list of results  (a callee known only by its
+    contract - e.g. the element Processor of an array, an Accessor)"""
+
+    def __init__(self, tn, methods):
+        self.tn, self.methods = tn, methods
+
+
+class GoLoopCut:
+    """inductive cut of a `for init; cond; post` loop: inv(env) -> [(name, bool term)], variant(env) -> BV term (strictly decreasing,
+    signed >= 0), havoc = local names that get fresh values, pre_assume(env) = hook havocking whatever else the loop modifies"""
+
+    def __init__(self, inv, variant, havoc, pre_assume=None, at_back_edge=None):
+        self.inv, self.variant, self.havoc, self.pre_assume, self.at_back_edge = inv, variant, havoc, pre_assume, at_back_edge
+
+
 class GBound:
     """method value bound to a receiver"""
 
@@ -194,6 +220,9 @@ class Interp:
         self.max_steps = max_steps
         self.depth = 0
         self.helper_contracts = {}      # runtime function name -> contract stub (callee contract instead of body)
+        self.method_contracts = {}      # (type name, method name) -> callable(interp, recv, args) -> results
+        self.loop_cuts = {}             # (function name, ordinal of the `for` statement reached in that call) -> GoLoopCut
+        self.fstack = []                # [name, loops seen] per active call
 
     # ---- types
     def resolve(self, pkg: Package, t) -> Tuple[Package, Any, Optional[str]]:
@@ -298,14 +327,17 @@ class Interp:
         defers: List[Any] = []
         env["$defers"] = defers
         ret = []
+        self.fstack.append([name, 0])
         try:
             self.block(pkg, env, body, new_scope=False)
         except _Return as r:
             ret = r.vals
         finally:
-            for d in reversed(defers):
-                d()
+            self.fstack.pop()
             self.depth -= 1
+            if not isinstance(sys.exc_info()[1], EN.StopPath):
+                for d in reversed(defers):
+                    d()
         if sig[1] and len(sig[1]) == 1 and ret:
             rt = sig[1][0][1]
             ret = [self.assignable(pkg, rt, ret[0])]
@@ -387,6 +419,13 @@ class Interp:
             e = dict(env)
             if st[1] is not None:
                 self.stmt(pkg, e, st[1])
+            cut = None
+            if self.fstack:
+                self.fstack[-1][1] += 1
+                cut = self.loop_cuts.get((self.fstack[-1][0], self.fstack[-1][1]))
+            if cut is not None:
+                self._cut_loop(pkg, e, st, cut)
+                return
             while True:
                 if st[2] is not None and not self.truth(self.ev(pkg, e, st[2])):
                     break
@@ -473,6 +512,35 @@ class Interp:
         else:
             raise GoUnsupported("statement %s" % k)
 
+    def _cut_loop(self, pkg, e, st, cut):
+        E = EN.cur()
+        tag = "%s#%d" % (self.fstack[-1][0], self.fstack[-1][1])
+        for nm, g in cut.inv(e):
+            self.ob("inv", "%s/inv-entry#%s" % (tag, nm), g)
+        for n in cut.havoc:
+            old = e[n][0]
+            e[n][0] = GI(old.tn, old.bits, old.signed, E.fresh("%s.%s" % (tag, n), z3.BitVecSort(old.bits)))
+        if cut.pre_assume:
+            cut.pre_assume(e)
+        for nm, g in cut.inv(e):
+            E.assume(g)
+        v0 = cut.variant(e)
+        if st[2] is not None and not self.truth(self.ev(pkg, e, st[2])):
+            return                                   # exit path: continue after the loop with inv and not cond
+        try:
+            self.block(pkg, e, st[4])
+        except (_Break, _Continue):
+            raise GoUnsupported("break / continue inside a cut loop")
+        if st[3] is not None:
+            self.stmt(pkg, e, st[3])
+        if cut.at_back_edge:
+            cut.at_back_edge(e)
+        for nm, g in cut.inv(e):
+            self.ob("inv", "%s/inv-preserve#%s" % (tag, nm), g)
+        v1 = cut.variant(e)
+        self.ob("variant", "%s/variant" % tag, z3.And(v1 < v0, v0 >= 0))
+        raise EN.StopPath()
+
     def default_type(self, v):
         """an untyped integer constant assigned with := becomes int"""
         if isinstance(v, int) and not isinstance(v, bool):
@@ -539,6 +607,13 @@ class Interp:
             base = self.ev(pkg, env, e[1])
             idx = self.ev(pkg, env, e[2])
             i = idx.v if isinstance(idx, GI) else idx
+            if isinstance(base, GSymBytes):
+                it = idx.term() if isinstance(idx, GI) else z3.BitVecVal(int(i), 64)
+                if it.size() != 64:
+                    raise GoUnsupported("index type of a symbolic byte slice")
+                self.ob("index-in-range", "panic: index out of range (symbolic byte slice)", z3.And(it >= 0, it < base.n))
+                return (lambda: GI("uint8", 8, False, z3.Select(base.arr, it)),
+                        lambda v: setattr(base, "arr", z3.Store(base.arr, it, v.term() if isinstance(v, GI) else z3.BitVecVal(int(v), 8))))
             if z3.is_expr(i):
                 raise GoUnsupported("symbolic index")
             if isinstance(base, GArray):
@@ -599,6 +674,13 @@ class Interp:
             return self.call_func(fn[1], fn[2], args)
         if fn[0] == "method":
             recv, name = fn[1], fn[2]
+            if isinstance(recv, GStub):
+                if name not in recv.methods:
+                    raise GoUnsupported("abstract %s has no contract for method %s" % (recv.tn, name))
+                return recv.methods[name](self, args)
+            tn0 = recv.t.tn if isinstance(recv, GPtr) and hasattr(recv.t, "tn") else getattr(recv, "tn", None)
+            if tn0 and (tn0.split(".")[-1], name) in self.method_contracts:
+                return self.method_contracts[(tn0.split(".")[-1], name)](self, recv, args)
             if recv is None:
                 self.panic("nil pointer dereference (method %s on nil)" % name)
             mpkg, decl, r, rname = self.method(recv, name)
@@ -649,9 +731,12 @@ class Interp:
             raise GoUnsupported("selector .%s on %r" % (e[2], base))
         if k == "index":
             idx = self.ev(pkg, env, e[2])
+            base0 = self.ev(pkg, env, e[1])
+            if isinstance(base0, GSymBytes):
+                return self.lref(pkg, env, e)[0]()
             if isinstance(idx, GI) and idx.sym():
                 # read with a symbolic index (e.g. a lookup table): in-range is an obligation, the value an if-chain
-                base = self.ev(pkg, env, e[1])
+                base = base0
                 if isinstance(base, GArray):
                     items = list(base.items)
                 elif isinstance(base, GSlice):
@@ -758,6 +843,8 @@ class Interp:
             x = args[0]
             if isinstance(x, GSlice):
                 return GI("int", 64, True, len(x))
+            if isinstance(x, GSymBytes):
+                return GI("int", 64, True, x.n)
             if isinstance(x, GArray):
                 return GI("int", 64, True, len(x.items))
             if isinstance(x, str):
@@ -881,6 +968,15 @@ class Interp:
                     r = {"+": x + y, "-": x - y, "*": x * y, "&": x & y, "|": x | y, "^": x ^ y, "&^": x & ~y}[op]
                 return GI(tn, a.bits, a.signed, r)
             x, y = a.term(), b.term()
+            am = getattr(self, "abs_muldiv", None)
+            if am is not None and op in ("*", "/") and a.sym() and b.sym() and a.signed and a.bits == 64:
+                # products / quotients of two symbolic operands as uninterpreted ghost functions (sound for validity); the contract
+                # supplies proved instances of the arithmetic laws it needs
+                if op == "*":
+                    EN.cur().assume(am["mul"](x, y) == am["mul"](y, x))
+                    return GI(tn, a.bits, a.signed, am["mul"](x, y))
+                self.ob("no-exception", "panic: integer divide by zero", y != 0)
+                return GI(tn, a.bits, a.signed, am["div"](x, y))
             if op in ("==", "!="):
                 return z3.simplify(x == y if op == "==" else x != y)
             if op in ("<", "<=", ">", ">="):
